@@ -53,12 +53,14 @@ CLAIMS = {
              "under a nick nobody owned (C02_unregistered_inert).",
         design_ref="5 (C02)"),
     "C04": dict(
-        technique="Coq proof (membership symmetry and rank-list clauses of the global invariant in every reachable world; single-operation effect lemmas) + differential traces with a three-view (NAMES/WHO/WHOIS) agreement oracle and an announcement-replay roster oracle",
+        technique="Coq proof (membership symmetry and rank-list clauses of the global invariant in every reachable world; fold-to-filter characterisation of the NAMES and WHOIS texts; single-operation effect lemmas) + differential traces with a three-view (NAMES/WHO/WHOIS) agreement oracle, a KICK/JOIN/PART/NICK announcement oracle and list-KICK histories",
         text="Theorems (props/C04.v): in every reachable world the per-user and per-channel membership tables are the same relation, the five rank lists of every channel are exactly the members "
-             "whose rank flag is set, and every member is a registered user owned by a live connection. The effects of JOIN/PART/KICK/NICK/teardown on that relation are the theorems of C07, "
-             "C09, C15, C16 and C06. That the NAMES, WHO and WHOIS texts print this relation, and that announcements reconstruct it, is decided per run by the oracles on real traces (L2).",
+             "whose rank flag is set, and every member is a registered user owned by a live connection; the 353 lines of NAMES carry exactly the members the viewer may see, each once, with its rank "
+             "prefix (sound and complete: chunking loses and duplicates nothing), and nothing for a secret channel the viewer is not on; the 319 lines of WHOIS carry exactly the non-secret channels of "
+             "the user's own membership set with the rank prefix; the two views read one relation (C04_views_agree). The effects of JOIN/PART/KICK/NICK/teardown on that relation are the theorems "
+             "of C07, C09, C15, C16 and C06. The WHO text and that announcements reconstruct the roster are decided per run by the oracles on real traces (L2).",
         design_ref="5 (C04)",
-        note="Partial at proof level: the agreement of the three reply texts with the relation is checked by differential execution, not proved."),
+        note="Partial at proof level: the WHO text and the announcement-derived rosters are checked by differential execution, not proved."),
     "C06": dict(
         technique="Coq proof (full characterisation of VolatileState::remove_user through the channel fold; teardown of a registered / unregistered connection; absent-everywhere corollary of the invariant) + six-way ending sweep with a state-dump oracle on the real server",
         text="Theorems (props/C06.v): the teardown of a registered connection (the single path of QUIT, EOF, reset, bad text, over-long line, pong timeout, KILL, DIE) deletes exactly its user record - "
